@@ -177,6 +177,55 @@ def mod_work(name, tier, viols, stats, counters):
         if name == 'bitcoin':
             for y in (c.upper(), c.lower(), c.swapcase(), c[:4] + c[4:].upper(), c.capitalize(), ' ' + c, c + '\n'):
                 evals += compare(name, mod, ref, t, y, viols, stats)
+    # numbers that are valid according to the *reference* (payload mutated, check characters repaired by searching with
+    # the reference as judge): a library that starts rejecting a class of valid numbers cannot hide them from this
+    def ref_ok(x):
+        try:
+            return ref(x, t)[0] is not None
+        except Exception:  # noqa: B902
+            return False
+    refvalid = []
+    for c in canon[:40 if tier == 'quick' else 400]:
+        if not ref_ok(c):
+            continue
+        for _ in range(4 if tier == 'quick' else 12):
+            s2 = list(c)
+            idx = [i for i, ch in enumerate(s2) if ch.isalnum()]
+            for p in rng.sample(idx, min(len(idx), rng.choice((1, 2, 3)))):
+                pool = refs.DIGITS if s2[p].isdigit() else refs.UPPER if s2[p].isupper() else 'abcdefghijklmnopqrstuvwxyz'
+                if name == 'bitcoin':
+                    pool = refs._B32 if c[:3].lower() == 'bc1' else refs._B58
+                s2[p] = rng.choice(pool)
+            cand = ''.join(s2)
+            found = cand if ref_ok(cand) else None
+            if found is None:
+                n2 = len(cand)
+                for p in [n2 - 1, n2 - 2, 2, 3, 0, 1]:
+                    if not (0 <= p < n2):
+                        continue
+                    for ch in refs.DIGITS + 'X' + (refs.UPPER if not cand[p].isdigit() else ''):
+                        y = cand[:p] + ch + cand[p + 1:]
+                        if ref_ok(y):
+                            found = y
+                            break
+                    if found:
+                        break
+            if found is None and len(cand) > 4:
+                for a in refs.DIGITS:
+                    for b in refs.DIGITS:
+                        for y in (cand[:-2] + a + b, cand[:2] + a + b + cand[4:]):
+                            if ref_ok(y):
+                                found = y
+                                break
+                        if found:
+                            break
+                    if found:
+                        break
+            if found and found not in refvalid:
+                refvalid.append(found)
+    for y in refvalid:
+        evals += compare(name, mod, ref, t, y, viols, stats)
+    counters['reference_valid_synthesised'] += len(refvalid)
     # human-readable spellings: separators of the standard's display form anywhere, label variants in front
     seps, labels = refs.PRESENTATION[name]
     label_variants = []
@@ -300,7 +349,7 @@ def sweep_work(shard, tier, viols, stats, counters):
 def work(shard, tier):
     viols = {}
     stats = {'keys': set()}
-    counters = {'display_forms': 0, 'sweep_payloads': 0, 'presented_forms': 0, 'constructed_addresses': 0}
+    counters = {'display_forms': 0, 'sweep_payloads': 0, 'presented_forms': 0, 'constructed_addresses': 0, 'reference_valid_synthesised': 0}
     if shard['kind'] == 'mod':
         evals = mod_work(shard['module'], tier, viols, stats, counters)
         sets = {'modules': [shard['module']]}
